@@ -1,5 +1,5 @@
-"""XARC (temporary id; part of C16) — arc segments in the drawing-edit model.
-Model: coq/theories/DrawingArc.v (extends Drawing.v); theorems: Properties_XARC.v (proofs in
+"""XARC — the arc-segment extension of C16 (run by ./check C16 through props/ext.py; ./check XARC runs it alone).
+Model: coq/theories/DrawingArc.v (extends Drawing.v); theorems: Properties_C16_arc.v (proofs in
 DrawingArcProofs.v).
 Correspondence: op sequences rich in arcs through harness/h_drawing_arc.cpp (the real
 femm::FemmProblem driven as the Lua commands drive it; the harness also records every libm value
@@ -37,12 +37,10 @@ HEADER = ("From Coq Require Import ZArith List Floats. Import ListNotations. "
 
 KNOWN = {c16.SIG_F2: "C16-F2", c16.SIG_F3: "C16-F3", c16.SIG_F4: "C16-F4", c16.SIG_F6: "C16-F6"}
 SIG_A2 = "C16-F2-arc-analogue-addnode-double-split-duplicates-arc"
-# suspected genuine defect found by this builder (reported, not fixed; see the final report / coverage):
-# addArcSegment recurses without bound when a third point lies within dmin = 1e-5 * arc length of an END point of the
-# proposed arc (the guard that addSegment has for this case is commented out in addArcSegment); the process dies with
-# SIGSEGV.  The model runs out of fuel on exactly these inputs, which is how a crash is attributed to this signature.
-SIG_A1 = "C16-A1-addarcsegment-unbounded-recursion-point-near-arc-end"
-SUSPECTED = {SIG_A1}
+# C16-A1 (fixed in /repo 0d96bcd): addArcSegment recursed without bound when a third point lay within dmin = 1e-5 * arc
+# length of an END point of the proposed arc; the process died with SIGSEGV.  A crash or a fuel exhaustion of the model on
+# such an input is a violation like any other; the replay inputs stay in the generator as regression probes
+# (PROBE_A1, probes_near_end).
 FX = {"value": True}
 HARNESS = "h_drawing_arc"
 
@@ -425,8 +423,85 @@ def gen_near_dup(rng):
     return ops
 
 
-# the suspected defect SIG_A1, minimal: a point 5e-6 from the end of a 90 degree arc of chord 1 (dmin = 1.1e-5)
+def gen_near_arc(rng):
+    """a point close to where an arc is about to be drawn (3e-6, 3e-5 or 8e-5 arc lengths off the circle, in its middle
+    part): addArcSegment's own tolerance dmin = 1e-5 * arc length decides whether the arc is broken there; the same for a
+    line (dmin = 1e-5 * length)"""
+    a = (float(rng.randint(0, 2)), float(rng.randint(0, 2)))
+    b = a
+    while b == a:
+        b = (float(rng.randint(0, 3)), float(rng.randint(0, 3)))
+    ang = float(rng.choice([30, 60, 90, 120, 180]))
+    ops = [("addnode",) + a, ("addnode",) + b]
+    tta = math.radians(ang)
+    d = math.hypot(b[0] - a[0], b[1] - a[1])
+    L = d / (2 * math.sin(tta / 2)) * tta
+    for _ in range(rng.randint(1, 2)):
+        p = arc_point(a, b, ang, rng.choice([0.5, 0.3, 0.7, 0.4]))
+        m = arc_point(a, b, ang, 0.5)
+        # radial direction ~ away from the chord's mid point for the points used here
+        cx, cy = (a[0] + b[0]) / 2, (a[1] + b[1]) / 2
+        ux, uy = p[0] - cx, p[1] - cy
+        n = math.hypot(ux, uy) or 1.0
+        off = rng.choice([3e-6, -3e-6, 3e-5, -3e-5, 8e-5, 2e-4]) * L
+        ops.append(("addnode", p[0] + off * ux / n, p[1] + off * uy / n))
+    if rng.random() < 0.3:
+        q = ((a[0] + b[0]) / 2 + rng.choice([3e-6, 3e-5, 8e-5]) * d, (a[1] + b[1]) / 2)
+        ops.append(("addnode",) + q)
+        ops.append(("addsegment",) + a + b)
+    ops.append(("addarc",) + a + b + (ang, 5.0))
+    if rng.random() < 0.4:
+        ops.append(("addarc",) + b + a + (ang, 5.0))
+    return ops
+
+
+# regression probe of C16-A1, minimal: a point 5e-6 from the end of a 90 degree arc of chord 1 (dmin = 1.1e-5)
 PROBE_A1 = [("addnode", 0.0, 0.0), ("addnode", 1.0, 0.0), ("addnode", 1.0, 5e-6), ("addarc", 0.0, 0.0, 1.0, 0.0, 90.0, 5.0)]
+
+
+def near_end_case(a, b, ang, which, factor, direction, both_ways=False, far=None):
+    """a point at factor * dmin (dmin = 1e-5 * arc length) from end point `which` of the arc a -> b of ang degrees that is
+    about to be drawn, in the given direction (radians)"""
+    tta = math.radians(ang)
+    d = math.hypot(b[0] - a[0], b[1] - a[1])
+    dmin = d / (2 * math.sin(tta / 2)) * tta * 1e-5
+    e = a if which == 0 else b
+    ops = [("addnode",) + a, ("addnode",) + b]
+    if far is not None:
+        ops.append(("addnode",) + far)
+    ops.append(("addnode", e[0] + factor * dmin * math.cos(direction), e[1] + factor * dmin * math.sin(direction)))
+    ops.append(("addarc",) + a + b + (ang, 5.0))
+    if both_ways:
+        ops.append(("addarc",) + b + a + (ang, 5.0))
+    return ops
+
+
+def probes_near_end():
+    """points at 0.3, 0.9, 1.1 and 3 times dmin from each end point of a prospective arc, in four directions"""
+    out = []
+    for which in (0, 1):
+        for factor in (0.3, 0.9, 1.1, 3.0):
+            for k in range(4):
+                out.append(near_end_case((0.0, 0.0), (1.0, 0.0), 90.0, which, factor, math.pi / 4 + k * math.pi / 2))
+    return out
+
+
+def gen_near_end(rng):
+    a = (float(rng.randint(0, 2)), float(rng.randint(0, 2)))
+    b = a
+    while b == a:
+        b = (float(rng.randint(0, 3)), float(rng.randint(0, 3)))
+    far = (5.0, 5.0) if rng.random() < 0.2 else None
+    ops = near_end_case(a, b, float(rng.choice([30, 60, 90, 120, 180])), rng.choice([0, 1]), rng.choice([0.3, 0.9, 1.1, 3.0]),
+                        rng.uniform(0, 2 * math.pi), both_ways=rng.random() < 0.4, far=far)
+    if rng.random() < 0.4:
+        # a second point near the other end, before the arc is drawn
+        e = b if ops[-1][0] == "addarc" and rng.random() < 0.5 else a
+        ops.insert(3 if far is None else 4, ("addnode", e[0] + 1.5e-5, e[1] - 1.0e-5))
+    if rng.random() < 0.3:
+        ops.append(("selectgroup", 0))
+        ops.append(rng.choice([("movetranslate", 0.5, 0.25, 4), ("copytranslate", 4.0, 0.0, 1, 4), ("mirror", -1.0, 0.0, -1.0, 1.0, 4)]))
+    return ops
 
 
 def gen_arc_props_copy(rng):
@@ -531,7 +606,7 @@ def probe_a2_ops():
 def new_stats():
     return dict(cases=0, evaluations=0, kinds={}, crashes=0, oracle_failures=0, distinct=set(), bit_identical=0,
                 values=0, states_compared=0, dsplit_flag=0, asplit_flag=0, signatures={}, known={}, radius={}, arcs_seen=0,
-                libm_values=0, suspected={}, suspected_replays=[])
+                libm_values=0)
 
 
 def classify(msg, ops, k, pre, post):
@@ -547,10 +622,6 @@ def report_crash(ctx, stats, ops, c, sanitized):
     k = c["op_index"]
     opname = ops[k][0] if k < len(ops) else "?"
     sig = c16.SIG_D4 if opname in c16.COPY_OPS else "C16-crash-" + opname
-    if sanitized and "stack-overflow" in c["stderr"] and "addArcSegment" in c["stderr"]:
-        # the sanitizer names the recursion itself
-        stats["suspected"][SIG_A1] = stats["suspected"].get(SIG_A1, 0) + 1
-        return
     rep = "sanitizer report" if sanitized and ("Sanitizer" in c["stderr"] or "runtime error" in c["stderr"]) \
         else "abnormal termination (rc=%d)" % c["rc"]
     head = [l for l in c["stderr"].split("\n") if "ERROR" in l or "runtime error" in l or "SUMMARY" in l][:3]
@@ -570,10 +641,8 @@ def check_cases(ctx, exe, cases, stats, sanitized=False, with_model=True):
         for o in ops:
             stats["kinds"][o[0]] = stats["kinds"].get(o[0], 0) + 1
         got = impl.get(cid)
-        crash = crashes.get(cid)
-        if crash is not None and (got is None or not with_model):
-            report_crash(ctx, stats, ops, crash, sanitized)
-            crash = None
+        if cid in crashes:
+            report_crash(ctx, stats, ops, crashes[cid], sanitized)
         if got is None:
             continue
         states = [s for s in got["states"] if s["done"]]
@@ -601,27 +670,12 @@ def check_cases(ctx, exe, cases, stats, sanitized=False, with_model=True):
                     stats["oracle_failures"] += 1
                 bad_at = k       # the oracle's later messages about this sequence would repeat the same thing
             pre = st
-        if with_model and (states or crash is not None):
-            n = len(states)
-            if crash is not None and crash["op_index"] == n and n < len(ops) and len(got["zs"]) > n:
-                n += 1            # the op that killed the process: is it the model's fuel that runs out?
-            elif crash is not None:
-                report_crash(ctx, stats, ops, crash, sanitized)
-                crash = None
-            exprs.append(to_coq(ops[:n], got["zs"][:n], got["libm"]))
-            idx.append((cid, ops, states, crash))
+        if with_model and states:
+            exprs.append(to_coq(ops[:len(states)], got["zs"][:len(states)], got["libm"]))
+            idx.append((cid, ops, states))
     if exprs:
         model = vlib.coq_eval(HEADER, exprs, shard=40 if ctx.quick() else 100, timeout=2400)
-        for (cid, ops, states, crash), m in zip(idx, model):
-            if crash is not None and len(m) == len(states) + 1:
-                last = m[-1]
-                m = m[:-1]
-                if last[3]:
-                    stats["suspected"][SIG_A1] = stats["suspected"].get(SIG_A1, 0) + 1
-                    if len(stats["suspected_replays"]) < 3:
-                        stats["suspected_replays"].append([list(o) for o in ops[:crash["op_index"] + 1]])
-                else:
-                    report_crash(ctx, stats, ops, crash, sanitized)
+        for (cid, ops, states), m in zip(idx, model):
             if len(m) != len(states):
                 dis.append(dict(what="model produced %d states for %d ops" % (len(m), len(states)), ops=[list(o) for o in ops]))
                 continue
@@ -651,11 +705,14 @@ def detect_fx(exe):
 
 def gen_all(rng, quick):
     cases = [c16.PROBE_F1, PROBE_F1_ARC, c16.PROBE_F2, c16.PROBE_F4, c16.PROBE_F6, probe_a2_ops(), PROBE_A1]
+    cases += probes_near_end()
+    cases += [gen_near_end(rng) for _ in range(16 if quick else 400)]
     n = 60 if quick else 1500
     for k in range(n):
         cases.append(gen_arc_seq(rng, rng.randint(8, 24)))
     cases += [gen_cross(rng) for _ in range(50 if quick else 1200)]
     cases += [gen_near_dup(rng) for _ in range(16 if quick else 300)]
+    cases += [gen_near_arc(rng) for _ in range(20 if quick else 300)]
     cases += [gen_arc_props_copy(rng) for _ in range(24 if quick else 500)]
     cases += [c16.gen_arc_copy(rng) for _ in range(8 if quick else 150)]
     cases += [gen_radius(rng) for _ in range(50 if quick else 1200)]
@@ -669,7 +726,7 @@ def correspond(ctx):
     exe = vlib.build_harness(ctx.snap, HARNESS)
     stats = new_stats()
     FX["value"] = detect_fx(exe)
-    ctx.res.cov["model_variant"] = ("fx=true: deleteSelectedNodes selects the lines and arcs at a deleted point (repaired code)"
+    ctx.res.cov["arc_model_variant"] = ("fx=true: deleteSelectedNodes selects the lines and arcs at a deleted point (repaired code)"
                                     if FX["value"] else "fx=false: deleteSelectedNodes toggles them (code before C16-F1-fix)")
     cases = list(enumerate(gen_all(rng, ctx.quick())))
     dis = check_cases(ctx, exe, cases, stats)
@@ -678,7 +735,7 @@ def correspond(ctx):
         for d in dis[:3]:
             ctx.fail("model and implementation disagree (the oracle found no property violation in this sequence): "
                      + d["what"], ops=d.get("ops"), signature="C16-arc-correspondence")
-    cov = ctx.res.cov
+    cov = ctx.res.cov            # keys of this extension are prefixed arc_ (ext.run keeps them apart from C16's own)
     cov["evaluations"] = stats["evaluations"]
     cov["distinct_nontrivial"] = len(stats["distinct"])
     cov["rule"] = ("seeded op sequences rich in arcs (arcs crossing lines and arcs, nodes added on arcs, arcs between the same "
@@ -690,21 +747,16 @@ def correspond(ctx):
     cov["input_distribution"] = dict(op_kinds=stats["kinds"], sequences=stats["cases"], states_with_arcs=stats["arcs_seen"],
                                      createradius_outcomes=stats["radius"])
     cov["samples"] = [to_text(cid, ops).split("\n")[:14] for cid, ops in cases[8:10]]
-    cov["states_compared_with_model"] = stats["states_compared"]
-    cov["values_compared"] = stats["values"]
-    cov["bit_identical"] = stats["bit_identical"]
-    cov["libm_values_taken_from_the_implementation"] = stats["libm_values"]
-    cov["harness_crashes"] = stats["crashes"]
-    cov["oracle_failures"] = stats["oracle_failures"]
-    cov["known_behaviours_reproduced"] = stats["known"]
-    cov["suspected_defects_seen"] = dict(counts=stats["suspected"], replays=stats["suspected_replays"],
-                                         what={SIG_A1: "mi_addarc / createRadius / a move or copy with arcs dies with SIGSEGV: addArcSegment "
-                                               "recurses without bound when a third point lies within 1e-5 * arc length of an end point "
-                                               "of the proposed arc (FemmProblem.cpp:454-488, the guard of addSegment:690-691 is "
-                                               "commented out at :462-463); the model runs out of fuel on the same op"})
-    cov["double_split_flag_seen"] = dict(lines=stats["dsplit_flag"], arcs=stats["asplit_flag"])
-    cov["failures_by_signature"] = stats["signatures"]
-    cov["sanitizer_replay"] = stats.get("san", {})
+    cov["arc_states_compared_with_model"] = stats["states_compared"]
+    cov["arc_values_compared"] = stats["values"]
+    cov["arc_bit_identical"] = stats["bit_identical"]
+    cov["arc_libm_values_taken_from_the_implementation"] = stats["libm_values"]
+    cov["arc_harness_crashes"] = stats["crashes"]
+    cov["arc_oracle_failures"] = stats["oracle_failures"]
+    cov["arc_known_behaviours_reproduced"] = stats["known"]
+    cov["arc_double_split_flag_seen"] = dict(lines=stats["dsplit_flag"], arcs=stats["asplit_flag"])
+    cov["arc_failures_by_signature"] = stats["signatures"]
+    cov["arc_sanitizer_replay"] = stats.get("san", {})
     return dis
 
 
@@ -721,10 +773,11 @@ def sanitizer_replay(ctx, stats):
     cases += [gen_cross(rng) for _ in range(15 if quick else 300)]
     cases += [gen_arc_props_copy(rng) for _ in range(10 if quick else 200)]
     cases += [gen_radius(rng) for _ in range(15 if quick else 300)]
+    cases += [PROBE_A1] + [gen_near_end(rng) for _ in range(10 if quick else 200)]
     st = new_stats()
     check_cases(ctx, exe, list(enumerate(cases)), st, sanitized=True, with_model=False)
     stats["san"] = dict(sequences=st["cases"], ops_checked=st["evaluations"], reports=st["crashes"],
-                        failures_by_signature=st["signatures"], known_behaviours=st["known"], suspected=st["suspected"])
+                        failures_by_signature=st["signatures"], known_behaviours=st["known"])
     stats["evaluations"] += st["evaluations"]
     for k, v in st["kinds"].items():
         stats["kinds"][k] = stats["kinds"].get(k, 0) + v
